@@ -104,7 +104,28 @@ def _link_transmit(link: ast.ClassDef) -> List[str]:
     return steps
 
 
+def skeleton(term: str, marks) -> List[str]:
+    """order of first occurrence of each constructor pattern in a translated body (`Gen.LinkBody`)"""
+    pos = sorted((term.find(pat), name) for pat, name in marks if term.find(pat) >= 0)
+    return [n for _, n in pos]
+
+
+SEND_MARKS = [(".ite (.not .enabled)", "enabled"), (".stamp", "stamp"), (".ifCan", "admission"), (".transmit", "transmit")]
+TX_MARKS = [(".size", "size"), (".setLoad (.add", "reserve"), (".deliver ", "deliver"), (".setLoad (.sub", "rollback")]
+ATX_MARKS = [(".setLoad (.add", "reserve"), (".deliverAll", "deliver")]
+
+
 def _send_order(fn: ast.FunctionDef, who: str) -> List[str]:
+    """The order of the steps of a `send_frame`: read off the statement-by-statement translation of the body (so a rewrite the
+    translator understands — an `else` branch, a positive test — gives the same order); what the body MEANS is `C18_gen_*_send_body`."""
+    from harness.extract.link_body import Tr, Unrecognised
+    try:
+        return skeleton(Tr().prog(_body(fn)), SEND_MARKS)
+    except Unrecognised as e:
+        raise ValueError(f"{who}.send_frame: {e}")
+
+
+def _send_order_textual(fn: ast.FunctionDef, who: str) -> List[str]:
     steps: List[str] = []
     for s in _body(fn):
         src = _u(s)
@@ -127,13 +148,57 @@ def _send_order(fn: ast.FunctionDef, who: str) -> List[str]:
     return steps
 
 
+class _Subst(ast.NodeTransformer):
+    def __init__(self, env):
+        self.env = env
+
+    def visit_Name(self, n):
+        if isinstance(n.ctx, ast.Load) and n.id in self.env:
+            return self.env[n.id]
+        return n
+
+
+def _inline_aliases(stmts: List[ast.stmt]) -> List[ast.stmt]:
+    """Drop top-level `name = <attribute chain>` statements (`hz = sender_network_interface.frequency.frequency_hz`) and
+    `name = self.bandwidth_load.setdefault(KEY, 0.0)` (read as `self.bandwidth_load[KEY]` after the missing-key initialisation),
+    substituting them in what follows: the same meaning in another shape is read as the same."""
+    import copy
+    env, out = {}, []
+    for st in stmts:
+        st = _Subst(env).visit(copy.deepcopy(st))
+        if isinstance(st, ast.Assign) and len(st.targets) == 1 and isinstance(st.targets[0], ast.Name):
+            v = st.value
+            chain = v
+            while isinstance(chain, ast.Attribute):
+                chain = chain.value
+            if isinstance(v, ast.Attribute) and isinstance(chain, ast.Name):
+                env[st.targets[0].id] = v
+                continue
+            if (isinstance(v, ast.Call) and _u(v.func) == "self.bandwidth_load.setdefault" and len(v.args) == 2
+                    and _u(v.args[1]) == "0.0" and not v.keywords):
+                env[st.targets[0].id] = ast.parse(f"self.bandwidth_load[{_u(v.args[0])}]", mode="eval").body
+                out.append(ast.parse(f"if {_u(v.args[0])} not in self.bandwidth_load:\n    self.bandwidth_load[{_u(v.args[0])}] = 0.0").body[0])
+                continue
+        out.append(st)
+    return out
+
+
+def _key_name(src: str) -> str:
+    """`sender_network_interface.frequency.frequency_hz` -> `frequency_hz` (what the per-frequency budget is indexed by)"""
+    pre = "sender_network_interface.frequency."
+    return src[len(pre):] if src.startswith(pre) else src
+
+
 def _air_transmit(air: ast.ClassDef):
-    b = _body(find_method(air, "transmit"))
+    """(steps, key of the `+=`, key the receivers are looked up by)"""
+    b = _inline_aliases(_body(find_method(air, "transmit")))
     steps = []
-    hz = "self.bandwidth_load[sender_network_interface.frequency.frequency_hz]"
+    load_key = recv_key = None
     for s in b:
-        if isinstance(s, ast.AugAssign) and _u(s.target) == hz and isinstance(s.op, ast.Add) and _u(s.value) == "frame.size_Mbits":
+        if (isinstance(s, ast.AugAssign) and isinstance(s.target, ast.Subscript) and _u(s.target.value) == "self.bandwidth_load"
+                and isinstance(s.op, ast.Add) and _u(s.value) == "frame.size_Mbits"):
             steps.append("reserve")
+            load_key = _key_name(_u(s.target.slice))
         elif isinstance(s, ast.For):
             if len(s.body) != 1 or not isinstance(s.body[0], ast.If):
                 raise ValueError("AirSpace.transmit: loop body is not a single `if`")
@@ -142,22 +207,30 @@ def _air_transmit(air: ast.ClassDef):
                 raise ValueError(f"AirSpace.transmit: unexpected receiver filter {test}")
             if [_u(x) for x in s.body[0].body] != ["wireless_interface.receive_frame(frame)"]:
                 raise ValueError("AirSpace.transmit: unexpected delivery statement")
-            if _u(s.iter) != "self.wireless_interfaces_by_frequency.get(sender_network_interface.frequency.frequency_hz, [])":
-                raise ValueError(f"AirSpace.transmit: receivers are not the interfaces on the sender's hz: {_u(s.iter)}")
+            it = s.iter
+            if not (isinstance(it, ast.Call) and _u(it.func) == "self.wireless_interfaces_by_frequency.get" and len(it.args) == 2
+                    and _u(it.args[1]) == "[]"):
+                raise ValueError(f"AirSpace.transmit: receivers are not looked up in wireless_interfaces_by_frequency: {_u(it)}")
+            recv_key = _key_name(_u(it.args[0]))
             steps.append("deliver")
         else:
             raise ValueError(f"AirSpace.transmit: unrecognised statement {_u(s)}")
-    return steps
+    return steps, load_key, recv_key
 
 
-def _air_can_transmit(air: ast.ClassDef) -> str:
-    b = _body(find_method(air, "can_transmit_frame"))
-    hz = "self.bandwidth_load[sender_network_interface.frequency.frequency_hz]"
-    if not (len(b) == 2 and isinstance(b[0], ast.If)
-            and _u(b[0].test) == "sender_network_interface.frequency.frequency_hz not in self.bandwidth_load"
-            and [_u(x) for x in b[0].body] == [f"{hz} = 0.0"]):
+def _air_can_transmit(air: ast.ClassDef):
+    """(comparison operator, key of the budget the admission test reads)"""
+    b = _inline_aliases(_body(find_method(air, "can_transmit_frame")))
+    if not (len(b) == 2 and isinstance(b[0], ast.If) and not b[0].orelse and isinstance(b[0].test, ast.Compare)
+            and len(b[0].test.ops) == 1 and isinstance(b[0].test.ops[0], ast.NotIn)
+            and _u(b[0].test.comparators[0]) == "self.bandwidth_load"):
         raise ValueError("AirSpace.can_transmit_frame: unexpected shape (missing-key initialisation)")
-    return _admission(b[1], [hz], ["self.get_frequency_max_capacity_mbps(sender_network_interface.frequency.name)"])
+    key = _u(b[0].test.left)
+    hz = f"self.bandwidth_load[{key}]"
+    if [_u(x) for x in b[0].body] != [f"{hz} = 0.0"]:
+        raise ValueError("AirSpace.can_transmit_frame: unexpected shape (missing-key initialisation)")
+    return (_admission(b[1], [hz], ["self.get_frequency_max_capacity_mbps(sender_network_interface.frequency.name)"]),
+            _key_name(key))
 
 
 def _reject_means_node_not_involved(fn: ast.FunctionDef, who: str) -> bool:
@@ -486,6 +559,11 @@ def _writes_of(attr: str) -> List[str]:
             elif isinstance(n, ast.Delete):
                 tgts, kind = n.targets, "del"
             for t in tgts:
+                base_t = t
+                while isinstance(base_t, ast.Subscript):
+                    base_t = base_t.value
+                if isinstance(base_t, ast.Name) and where[n][1] is not None:
+                    continue        # a LOCAL variable of that name inside a function is not the attribute (class-level declarations are)
                 if hits(t):
                     sub = "[…]" if isinstance(t, ast.Subscript) else ""
                     out.add(f"{_site(rel, where[n])}:{attr}{sub} {kind}")
@@ -494,12 +572,25 @@ def _writes_of(attr: str) -> List[str]:
     return sorted(out)
 
 
+# methods whose whole body is translated statement by statement (harness/extract/link_body.py, `C18_gen_*_body`): HOW they write the
+# load is what those theorems are about, so the inventory only says THAT they do (a rewrite of the same meaning keeps the inventory)
+TRANSLATED = {"airspace.py:AirSpace.can_transmit_frame", "airspace.py:AirSpace.transmit", "base.py:Link.transmit_frame"}
+
+
+def _collapse_translated(ws: List[str]) -> List[str]:
+    out = set()
+    for w in ws:
+        site = ":".join(w.split(":")[:2])
+        out.add(site + ":(body translated)" if site in TRANSLATED else w)
+    return sorted(out)
+
+
 def air_load_writers() -> List[str]:
-    return _writes_of("bandwidth_load")
+    return _collapse_translated(_writes_of("bandwidth_load"))
 
 
 def link_load_writers() -> List[str]:
-    return _writes_of("current_load")
+    return _collapse_translated(_writes_of("current_load"))
 
 
 def air_membership_ops() -> List[tuple]:
@@ -633,6 +724,57 @@ def tick_reset_path() -> List[tuple]:
                                  else "does NOT register the link in self.links"])]
 
 
+STEP_CALLS = ("pre_timestep", "apply_agent_actions", "advance_timestep")
+
+
+def _game_receiver(f: ast.AST, in_game_class: bool) -> bool:
+    """`self.game.<m>` / `<x>.game.<m>` anywhere, `self.<m>` inside `PrimaiteGame` itself"""
+    if not isinstance(f, ast.Attribute):
+        return False
+    r = _u(f.value)
+    return r.endswith(".game") or r == "game" or (in_game_class and r == "self")
+
+
+def step_loops() -> List[tuple]:
+    """The loop of ONE step of an episode, wherever it is written: every function of src/primaite that calls the game's
+    `apply_agent_actions()` or `advance_timestep()` (`PrimaiteGame.step`, `PrimaiteGymEnv.step`, `PrimaiteRayMARLEnv.step`), with
+    its calls of pre_timestep / apply_agent_actions / advance_timestep in source order.  A call that is not a plain top-level
+    statement of the function (under an `if` / loop / `try` / `with`, or part of a larger expression) is marked `(conditional)`:
+    the tick of the property is the step, and the reset must be the unconditional first of the three."""
+    out = []
+    for rel in _py_files(""):
+        tree = parse(rel)
+        for cls in [n for n in ast.walk(tree) if isinstance(n, ast.ClassDef)] + [None]:
+            fns = [f for f in (cls.body if cls is not None else tree.body) if isinstance(f, (ast.FunctionDef, ast.AsyncFunctionDef))]
+            for fn in fns:
+                in_game = cls is not None and cls.name == "PrimaiteGame"
+                top = {id(st.value) for st in _body(fn) if isinstance(st, ast.Expr)}
+                calls = []
+                for n in ast.walk(fn):
+                    if isinstance(n, ast.Call) and isinstance(n.func, ast.Attribute) and n.func.attr in STEP_CALLS \
+                            and _game_receiver(n.func, in_game):
+                        calls.append((n.lineno, n.col_offset, n.func.attr + ("" if id(n) in top else " (conditional)")))
+                names = [c[2] for c in sorted(calls)]
+                if any(x.split()[0] in ("apply_agent_actions", "advance_timestep") for x in names):
+                    out.append((f"{rel.split('/')[-1]}:{(cls.name + '.') if cls is not None else ''}{fn.name}", names))
+    return sorted(out)
+
+
+def timestep_drivers() -> List[str]:
+    """Every call in src/primaite of `pre_timestep` / `apply_timestep` on a *simulation* or *network* object (the calls that open
+    and that run a tick of the whole simulation), by enclosing function."""
+    out = set()
+    for rel in _py_files(""):
+        tree = parse(rel)
+        where = _enclosing(tree)
+        for n in ast.walk(tree):
+            if isinstance(n, ast.Call) and isinstance(n.func, ast.Attribute) and n.func.attr in ("pre_timestep", "apply_timestep"):
+                r = _u(n.func.value)
+                if r.split(".")[-1] in ("simulation", "sim", "network", "net"):
+                    out.add(f"{_site(rel, where[n])}:{r}.{n.func.attr}")
+    return sorted(out)
+
+
 def link_construction_sites() -> List[str]:
     out = set()
     for rel in _py_files(""):
@@ -666,14 +808,27 @@ def emit() -> str:
     air_t = parse(AIR)
     link = class_def(base, "Link")
     air = class_def(air_t, "AirSpace")
-    op_link = _link_can_transmit(link)
-    op_air = _air_can_transmit(air)
+    try:
+        op_link = _link_can_transmit(link)
+    except ValueError:
+        # another shape: the comparison is read off the statement-by-statement translation (what the body MEANS — the `is_up` test
+        # included — is `C18_gen_link_can_transmit_body`, which then has no proof if the meaning changed)
+        from harness.extract.link_body import Tr as _Tr
+        term = _Tr().prog(_body(find_method(link, "can_transmit_frame")))
+        if ".le (.add .load .size) .cap" in term and ".lt " not in term:
+            op_link = "≤"
+        elif ".lt (.add .load .size) .cap" in term and ".le " not in term:
+            op_link = "<"
+        else:
+            raise
+    op_air, key_admit = _air_can_transmit(air)
     is_up = _is_up(link)
-    tx = _link_transmit(link)
+    from harness.extract.link_body import Tr
+    tx = skeleton(Tr().prog(_body(find_method(link, "transmit_frame"))), TX_MARKS)
     wired = _send_order(find_method(class_def(base, "WiredNetworkInterface"), "send_frame"), "WiredNetworkInterface")
     sw = _send_order(find_method(class_def(parse(SWITCH), "SwitchPort"), "send_frame"), "SwitchPort")
     wl = _send_order(find_method(class_def(air_t, "WirelessNetworkInterface"), "send_frame"), "WirelessNetworkInterface")
-    atx = _air_transmit(air)
+    atx, key_load, key_recv = _air_transmit(air)
     # per-tick reset: NAMED step by step (round 6) instead of raised, so that exactly `C18_gen_tick_reset_path` / `C18_gen_flags` fail
     reset_path = tick_reset_path()
     tick_resets = reset_path == EXPECTED_RESET_PATH
@@ -747,7 +902,11 @@ def airspaceArgumentSites : List String := {lst(airspace_argument_sites())}
 def disableClearsLoad : Bool := {"true" if disable_clears else "false"}
 /-- `AirSpace`: `bandwidth_load` and the receiver lists are keyed by `frequency.frequency_hz`; the capacity of the admission
 test is `get_frequency_max_capacity_mbps(sender.frequency.name)` (both shapes are enforced by the extractor) -/
-def airLoadKey : String := "frequency_hz"
+def airLoadKey : String := "{key_load}"
+/-- what each place indexes by: the budget the admission test reads, the budget `transmit` adds to, and the list of receivers
+`transmit` walks (the PHYSICAL channel: who hears the frame).  A budget indexed by anything else than the receivers' key is not a
+budget of the channel the frames go out on. -/
+def airKeys : List (String × String) := [("can_transmit_frame:budget", "{key_admit}"), ("transmit:budget", "{key_load}"), ("transmit:receivers", "{key_recv}")]
 def airCapacityKey : String := "name"
 /-- NIC / RouterInterface / SwitchPort / WirelessAccessPoint `.receive_frame` call their node only on the path that returns True -/
 def rejectedMeansNodeNotInvolved : Bool := {"true" if rej else "false"}
@@ -784,5 +943,11 @@ def sizeEvaluations : List (String × Nat) := [{", ".join(f'("{n}", {k})' for n,
 `_capture_traffic`, `PacketCapture.capture_outbound`) writes on the frame, and which methods of the frame it calls -/
 def frameWritesBetweenAdmissionAndAccounting : List String := {lst(szw["writes"])}
 def frameCallsBetweenAdmissionAndAccounting : List String := {lst(szw["calls"])}
+/-- the loop of one step of an episode wherever it is written (every function that calls the game's `apply_agent_actions` or
+`advance_timestep`): its calls of pre_timestep / apply_agent_actions / advance_timestep in source order; `(conditional)` = not a
+plain top-level statement of the function -/
+def stepLoops : List (String × List String) := [{", ".join(f'("{n}", {lst(st)})' for n, st in step_loops())}]
+/-- every call of `pre_timestep` / `apply_timestep` on a simulation / network object -/
+def timestepDrivers : List String := {lst(timestep_drivers())}
 end Primaite.Gen.Link
 """
